@@ -27,8 +27,8 @@ TEXT = {
     "C06": ("C06_provide_unchanged proved at full strength: whenever Provide returns an error (any cause, any state, with or without Export, cycle in the target or any descendant) the container equals the one before in every component except the isVerifiedAcyclic flags — proved through the undo actually performed (rollbackProvide: graph holders truncated, node tables truncated, providers of the target restored), with the invariant `Work` over everything the attempt may have done; C06_decorate_unchanged (a rejected Decorate changes orphan graph nodes only), C06_no_execution", "metamorphic twins on the real library: history with / without each rejected Provide/Decorate followed by a probe sweep must behave identically; full traces compared with the model"),
     "C07": ("C07_failed_writes_nothing / C07_failed_deco_writes_nothing (a failing execution changes no cache, flag or registry entry), C07_retry_ctor / C07_retry_deco (after a failing call the node is not built, off the stack / ready, hence executed again on the next demand), C07_others_kept are proved; root cause: C13_ctor_outcome / C13_deco_outcome",
             "trace predicate: no token of a failed execution is ever delivered, root cause of the demanding Invoke is the first failure; traces compared with the model under a fault-heavy profile"),
-    "C08": ("(theorems pending)", "wiring across scope trees (up to 7 scopes, Export) compared with the model"),
-    "C09": ("(theorems pending)", "wiring + acceptance of registrations compared with the model under a profile rich in names, groups and As"),
+    "C08": ("C08_path_only (the provider search answers only with the nearest scope on the path to the root), C08_all_providers_on_path, C08_child_path (a new child's path is the child followed by its parent's path: registrations made in ancestors before or after the child was created are equally visible), C08_tree_wf are proved; Export and graph orders are correspondence-only", "wiring across scope trees (up to 7 scopes, Export) compared with the model"),
+    "C09": ("C09_keys_distinct, C09_as_only, C09_as_sound (with As a value is registered under the listed, implemented interfaces only, not its concrete type), C09_dup_single (a key already provided in the target scope or repeated within the constructor's results fails validation), C09_groups_free are proved", "wiring + acceptance of registrations compared with the model under a profile rich in names, groups and As"),
     "C10": ("C10_members (an undecorated hard group parameter receives exactly the concatenation of the members committed in the scopes on the path to the root; shape lemma buildGroup_undecorated), C10_failure_is_group_failure are proved", "multisets received by hard group parameters compared with the model"),
     "C11": ("C11_silent (building an undecorated soft group changes no state and returns exactly the members already committed on the path), C11_soft_last are proved", "multisets received by soft group parameters and the execution skeleton compared with the model"),
     "C12": ("C12_consumer, C12_self_skipped, C12_local, C12_once, C12_one (an accepted Decorate only fills keys undecorated in that scope; a rejected one changes graph holders only) are proved; C20_deco_cached",
@@ -37,12 +37,12 @@ TEXT = {
             "K-error: chains of wrapper kinds, RootCause, errors.Is, IsCycleDetected, CanVisualizeError of every returned error and callback error compared with the model; trace predicate pred_c13 judges the implementation's own classification"),
     "C14": ("C14_nonfunc (nil / non-function / nil-function values rejected, container unchanged), C14_bad_options, C14_rejected_decorate, C14_rejected_invoke_parse (only orphan group-parameter graph nodes are added), C14_no_events, and C06_provide_unchanged for rejected Provides are proved; totality of the API is by construction of the model",
             "grammar-based malformed inputs (55% of registrations): verdict classes compared with the model; any panic escaping dig or process failure is a violation with the program as replay; C06 twins"),
-    "C15": ("(theorems pending)", "Info structs (the parse made visible) and verdicts compared with the model"),
-    "C16": ("(theorems pending)", "metamorphic twins on the real library: permuted registration blocks, scope creation moved earlier, DeferAcyclicVerification on/off against the eager run"),
+    "C15": ("C15_object_build (a parameter object without soft groups is built exactly like the positional list of its fields: same calls, same state, same error point, values in declaration order), C15_interleave_hard, C15_list_build, C15_shallow_flat, C15_dot_flat are proved; the parse-level half and result objects are correspondence-only", "Info structs (the parse made visible) and verdicts compared with the model"),
+    "C16": ("verification-timing half proved: C16_defer_never_rejects, C16_eager_step, C16_eager_failure_names_a_check, C16_invoke_checks (an unverified scope is checked by Invoke before anything is built; a cycle rejects without executing anything), C16_flags_only; the permutation half is decided by metamorphic twins on the real library", "metamorphic twins on the real library: permuted registration blocks, scope creation moved earlier, DeferAcyclicVerification on/off against the eager run"),
     "C17": ("C17_silent / C17_silent_history proved at full strength (no enter/exit event in any history of a DryRun container)",
             "verdict equality dry vs normal with all-ok functions: metamorphic twin on the real library; traces compared with the model (50% dry programs)"),
-    "C18": ("(theorems pending)", "Info structs of every Provide/Decorate/Invoke compared with the model (IDs excluded in reflect mode)"),
-    "C19": ("(theorems pending) the Dot layer is modelled: createGraph/AddCtor, updateGraph (FailNodes, FailGroupNodes, AddMissingNodes), PruneSuccess (lean/DigModel/Dot.lean)",
+    "C18": ("C18_single_entry, C18_group_entry, C18_object_flat (declaration order), C18_as_expanded, C18_group_result, C18_error_omitted, C18_error_slot, C18_variadic_omitted, C18_rejected_untouched_decorate, C18_info_is_parse_decorate are proved", "Info structs of every Provide/Decorate/Invoke compared with the model (IDs excluded in reflect mode)"),
+    "C19": ("C19_can, C19_no_error_is_createGraph, C19_uninformative_error, C19_addCtor_appends (one entry per AddCtor, earlier entries kept), C19_first_failure_is_root are proved for the Dot model (createGraph/AddCtor, updateGraph, PruneSuccess in lean/DigModel/Dot.lean)",
             "K-dot: the DOT text of every Visualize (with and without VisualizeError) is parsed by a real DOT-subset parser in the harness (syntax validity, label consistency) and its structure (clusters, result nodes, parameter edges with dashed/solid, group nodes and members, failure colouring, pruning) is compared with the model; in reflect mode all constructor IDs coincide (modelled as such), distinct IDs need the generated-source mode"),
     "C20": ("C20_ctor, C20_deco (exact event sequence of one execution incl. callback error and runtime), C20_error_root, C20_cached, C20_onstack, C20_deco_cached, C20_passive proved",
             "K-callback: callback events (position, error class, runtime under the mock clock) compared with the model; trace predicate pred_c20 judges the implementation's own trace"),
